@@ -1,5 +1,6 @@
 """C02 - path matching respects separators, segments, globstar and MATCHBASE."""
 import json
+import os
 import corr
 import astgen
 from wclib import import_impl, seeded_rng
@@ -212,6 +213,43 @@ def run(ctx):
                 ctx.counterexample('NODIR: globmatch(%r, "**", NODIR) = %r but the path %s directory-like' % (
                     n, got, 'is' if dirlike else 'is not'), {'name': n, 'pattern': '**', 'flags': 'GLOBSTAR|DOTGLOB|NODIR'})
     ctx.counted('NODIR exclusion', len(names), len(names) // 2, [{'name': 'a/./', 'dirlike': True}])
+    # NODIR acts on whatever the pattern set accepts - also when the inclusion is the one NEGATEALL supplies
+    nn_ = 0
+    for n in [x for x in names if '\n' not in x][:400]:
+        for excl, gs in (('!zz', Gm.GLOBSTAR), ('!*/zz', 0), ('!zz', Gm.MATCHBASE)):
+            nn_ += 1
+            a_ = Gm.globmatch(n, excl, flags=gs | Gm.DOTGLOB | Gm.NODIR | Gm.NEGATE | Gm.NEGATEALL | Gm.FORCEUNIX)
+            b_ = Gm.globmatch(n, ['**', excl], flags=Gm.GLOBSTAR | (gs & Gm.MATCHBASE) | Gm.DOTGLOB | Gm.NODIR | Gm.NEGATE | Gm.FORCEUNIX)
+            if a_ != b_:
+                ctx.counterexample('globmatch(%r, %r, NEGATE|NEGATEALL|NODIR) = %r but with the match-everything pattern written out (%r) it is %r' % (n, excl, a_, ['**', excl], b_),
+                                   {'name': n, 'pattern': excl, 'flags': 'NEGATE|NEGATEALL|NODIR|DOTGLOB'})
+                break
+        else:
+            continue
+        break
+    ctx.counted('NODIR with the inclusion NEGATEALL supplies', nn_, nn_ // 2, [{'name': 'x/', 'pattern': '!a'}])
+    # a trailing separator on the pattern demands a directory-style path: with REALPATH a path written without one is
+    # directory-style exactly when it is a directory below the root it is given relative to - wherever the process stands
+    # (the bare `**/` is left out: finding C04-gstar-div-accepts-file)
+    import trees as _tr
+    nr_ = 0
+    with _tr.Tree([('dir_x', 'd', None), ('dir_x/inner', 'd', None), ('file_y', 'f', None), ('dir_x/f', 'f', None)]) as TR, _tr.Tree([('file_y', 'd', None), ('dir_x', 'f', None)]) as DECOY:
+        old_cwd = os.getcwd()
+        try:
+            os.chdir(DECOY.root)          # a decoy working directory in which the kinds are the other way round
+            for nm_, isd in (('dir_x', True), ('file_y', False), ('dir_x/inner', True), ('dir_x/f', False)):
+                for pt_, fl_, want in (('*/', 0, isd and '/' not in nm_), ('*', Gm.NODIR, (not isd) and '/' not in nm_), ('**', Gm.GLOBSTAR | Gm.NODIR, not isd),
+                                       ('**/*/', Gm.GLOBSTAR, isd)):
+                    nr_ += 1
+                    got = [Gm.globmatch(nm_, pt_, flags=fl_ | Gm.REALPATH, root_dir=TR.root), Gm.compile(pt_, flags=fl_ | Gm.REALPATH).match(nm_, root_dir=TR.root),
+                           bool(Gm.globfilter([nm_], pt_, flags=fl_ | Gm.REALPATH, root_dir=TR.root))]
+                    if got != [want] * 3:
+                        ctx.counterexample('globmatch(%r, %r, %s|REALPATH, root_dir=<tree>) = %r (compile, filter: %r) but %r is %s under that root' % (
+                            nm_, pt_, corr.flag_names(fl_), got[0], got[1:], nm_, 'a directory' if isd else 'not a directory'),
+                            {'name': nm_, 'pattern': pt_, 'flags': corr.flag_names(fl_ | Gm.REALPATH), 'tree': ['dir_x/', 'dir_x/inner/', 'dir_x/f', 'file_y'], 'cwd': 'a directory where dir_x is a file and file_y a directory'})
+        finally:
+            os.chdir(old_cwd)
+    ctx.counted('directory-style paths under REALPATH with a root', nr_, nr_ // 2, [{'name': 'dir_x', 'pattern': '*/'}])
     common.replay_witnesses(ctx, [
         ('C02-group-segment-empty', "globmatch('a/', 'a/?(a)', EXTGLOB) is True (a segment made of a group that can match empty accepts an empty segment)",
          lambda: Gm.globmatch('a/', 'a/?(a)', flags=Gm.EXTGLOB | Gm.FORCEUNIX) is True),
